@@ -51,8 +51,9 @@ def run(ctx, report: Report) -> None:
     # (b) closest() and filter() of the per-call matcher, as tables over abstract trees with a stand-in for CSSMatch.match: the
     # verdict of every candidate comes from match(), the candidates are the target and its ancestors (nearest first) / the
     # element children of the target.  (c) SoupSieve.select / iselect / select_one: soupsieve_methods_table (R4).
-    from .sem import closest_filter_table
+    from .sem import closest_filter_table, context_restore_table
     closest_filter_table(ctx, r2)
+    context_restore_table(ctx, r2)
     # (d) CSSMatch.select yields exactly the element descendants of the target, in document order (never the target itself,
     # never a following sibling): a table on abstract trees
     from .sem import select_walk_table
